@@ -100,7 +100,9 @@ func (r *Reconnector) attemptReconnect(addr string) {
 	defer verifhook.At("reconnect.attempt.exit", r, addr)
 	r.mu.Lock()
 	state, exists := r.states[addr]
-	if !exists || r.closed {
+	// A timer that fired just before Pause() must not start an attempt: the
+	// state is kept for Resume(), like for the timers Pause() could still stop.
+	if !exists || r.closed || r.paused {
 		r.mu.Unlock()
 		return
 	}
@@ -129,6 +131,11 @@ func (r *Reconnector) attemptReconnect(addr string) {
 	if err != nil {
 		// Reschedule if still within limits
 		if r.cfg.MaxAttempts == 0 || state.attempts < r.cfg.MaxAttempts {
+			if r.paused {
+				// Paused while this attempt was in flight: do not arm a new
+				// timer, the backoff state is kept for Resume() + Schedule().
+				return
+			}
 			delay := r.addJitter(state.nextDelay)
 			state.timer = time.AfterFunc(delay, func() {
 				r.attemptReconnect(addr)
